@@ -1,4 +1,10 @@
-"""C21 — undefined types: documented operation table (finite, exhaustive)."""
+"""C21 — undefined types: documented operation table (finite, exhaustive), on the objects and THROUGH THE ENGINE.
+
+Proof side: Props/C21.lean (class table of runtime.py = documented table) and Props/C21Engine.lean (the table composed
+with the engine's guards — Environment/Sandbox getitem/getattr, do_attr, do_int, do_float, test_iterable, Context.call,
+whose `except` tuples and the exception class hierarchy are READ from the source — equals the documented behaviour for
+every access chain and every final operation; the hierarchy of exceptions.py is pinned).
+"""
 from __future__ import annotations
 
 import asyncio
@@ -8,17 +14,60 @@ import pickle
 
 from harness import core
 from harness.core import Atom
+from translate import exception_classes as tr_exc
 from translate import undefined_table as tr_undef
 
 ID = "C21"
-GEN = [tr_undef.gen]
-LEAN_MODULES = ["JinjaV.Props.C21"]
+GEN = [tr_undef.gen, tr_exc.gen]
+LEAN_MODULES = ["JinjaV.Props.C21", "JinjaV.Props.C21Engine"]
 LEVEL = "proof"
 TRUSTED = [
     "translator translate/undefined_table.py (class bodies of the undefined types classified by a fixed list of body shapes)",
+    "translator translate/exception_classes.py (class statements of exceptions.py, `except` tuples of nine engine functions "
+    "whose body shape is compared with the transcribed one, builtin exception bases from the running interpreter)",
     "Python's special-method dispatch (reflected operators, containment falling back to iteration) as modelled in "
     "Model/UndefinedOps.lean — validated by this exhaustive run",
+    "which special methods each template construct reaches (Model/UndefinedEngine.lean simpleFinal/final: print->__str__, "
+    "if/not->__bool__, for->__iter__/__aiter__, |length->__len__, in->__contains__/__iter__, {x:1}->__hash__, …) and that "
+    "hasattr/3-argument getattr swallow AttributeError only — validated by the end-to-end runs",
 ]
+CLAIM = dict(
+    category="proof",
+    technique="Lean 4 proof by complete finite enumeration (decide +kernel) that the special-method table read from "
+              "runtime.py, resolved through Python's dispatch rules, equals the documented operation table; Lean proof "
+              "(finite step/final lemmas + induction over access chains) that the table composed with the engine's guards "
+              "(except tuples and exception class hierarchy read from the source) equals the documented behaviour for every "
+              "template expression; the exception hierarchy pinned by decide + exhaustive runs on the real classes and "
+              "through templates (plain/sandboxed, sync/async)",
+    text="Theorems (Props/C21.lean) undef_table_eq: for all 8 undefined kinds (default, chainable, debug, strict and their "
+         "logging variants) and all 38 operations (print, truth, sync/async iteration, containment, length, equality, hash, "
+         "repr, __html__, 14 arithmetic operators in both operand orders, unary, 4 comparisons, int/float/complex, attribute, "
+         "dunder attribute, item, call) the outcome obtained by MRO resolution over the regenerated class table equals the "
+         "documented table; the enumeration is proved complete. (Props/C21Engine.lean) engine_eq_spec: for a plain and a "
+         "sandboxed environment, sync and async, every kind, EVERY chain of accesses (x.k, x['k'], x[non-string key], "
+         "x[a:b], x|attr) of any length followed by any of 58 final operations (print, if, not, and, for, length, count, "
+         "list, string, ~, e, trim, int, float, default, is defined/undefined/none/iterable, in/not in, ==/!= both orders, "
+         "is eq, in [..], 11 binary operators both orders, unary, call, join, dict key, sum, sort) evaluates to the "
+         "documented text or raises; engine_error_names_origin: whenever it raises, the error is the original undefined's "
+         "(it names the missing variable/attribute/item), never a new undefined made by the engine; step_eq_spec / "
+         "final_eq_spec / engine_guards_transparent: no except clause of Environment/SandboxedEnvironment getitem/getattr, "
+         "do_attr, do_int, do_float, test_iterable, Context.call catches what an undefined raises; "
+         "exception_hierarchy_pinned / exception_classes_listed / undefinedError_escapes_builtin_handlers / "
+         "templateNotFound_is_lookup_and_io / hierarchy_closed: each class of exceptions.py is an instance of exactly the "
+         "documented classes (UndefinedError of no builtin below Exception that any except clause in src/jinja2 names; "
+         "TemplateNotFound of LookupError and IOError). Tie: class table, except tuples, function shapes and class "
+         "statements are re-read every run; correspondence exhaustive on real objects (kinds x operations x 4 origins x 6 "
+         "operands, copy/deepcopy/pickle, Environment.getitem/getattr of both environment types with 9 keys) and through "
+         "templates: every (environment type, sync/async, kind, access chain of length <=1, final) with routes (missing "
+         "name, attribute, int/str/tuple/variable key on list/dict/int, inline-if hint, first/last of an empty list, "
+         "undefined passed in the context) and concrete keys drawn per case, plus random chains of length 2-4; real "
+         "__mro__ of every exception class against the Lean ancestors; error messages must name what is missing.",
+    note="Trusted: Lean kernel; translators (body-shape classification, function-shape comparison); Python's "
+         "reflected-operator dispatch and the template-construct -> special-method map as modelled (validated end to "
+         "end); log records of the logging variants are not part of the compared outcome; operations outside the "
+         "documented table (abs, round, range(x), tojson, …) are not claimed.",
+    design_ref="§5 C21, design/C21.md",
+)
 ASSUMPTIONS = ["left operands of reflected operators are ints/floats/None/lists (a str left operand of % formats "
                "without consulting the undefined value: Python semantics outside the engine)"]
 
@@ -203,18 +252,39 @@ def run(ctx, res):
                 if not ok:
                     res.violate(f"C21:{kname}:{how}", f"{how} of a {kname} undefined ({oname}) gives {v!r}", {"kind": kname, "how": how, "origin": oname})
     e2e = run_e2e(ctx, res, jinja2, ks, table)
+    api = run_api(ctx, res, jinja2, ks)
+    hier = run_hierarchy(ctx, res, jinja2)
+    eng = run_engine(ctx, res, jinja2, ks)
     res.coverage.update({
-        "evaluations": evaluations + e2e["renders"],
-        "distinct_nontrivial": len(distinct) + e2e["distinct"],
+        "evaluations": evaluations + e2e["renders"] + api["calls"] + hier["checks"] + eng["renders"],
+        "distinct_nontrivial": len(distinct) + e2e["distinct"] + api["distinct"] + eng["distinct"],
         "rule": ("exhaustive: 8 undefined types (4 + logging variants) x 38 operations x 4 origins (missing name, "
                  "attribute, item, explicit hint) x 6 other operands for binary/reflected operations, on real objects; "
                  "copy/deepcopy/pickle; templates exercising each operation through template syntax in sync and async "
-                 "environments; plus is defined / default / undefined tests"),
+                 "environments; plus is defined / default / undefined tests.  THROUGH THE ENGINE (oracle: Lean runSpec): "
+                 "every (plain|sandboxed environment, sync|async, kind, access chain of length <= 1 over {x.k, x['k'], "
+                 "x[non-string key], x[a:b], x|attr}, one of 58 final operations) rendered as a template, the value produced "
+                 "by one of 14 routes (missing name; missing attribute of object/dict; int key on list/dict/int; str, tuple, "
+                 "variable key on dict; inline-if hint; first/last of an empty list; undefined passed in the context) and the "
+                 "concrete key forms (0, -1, (1, 2), none, variable, 1.5, true, map(attribute=…)) drawn from ctx.rng per case "
+                 "(quick) or every route (thorough); every concrete key form once more; random "
+                 "chains of length 2-4 (400 quick / 8000 thorough, x3 when a proof or the tie broke); a case is non-trivial when its (environment, mode, kind, "
+                 "source) is new.  Environment.getitem/getattr of both environment types called directly with 9 keys x 4 "
+                 "origins x 8 kinds.  Exception classes: real __mro__ of every class of exceptions.py and every builtin in "
+                 "the tables against the Lean ancestors / documented ancestors; UndefinedError against every builtin exception"),
         "samples": [{"kind": "strict", "op": "aiter", "documented": table[("strict", "aiter")][1]},
                     {"kind": "logging-strict", "op": "iter", "documented": table[("logging-strict", "iter")][1]}] + e2e["samples"],
-        "exhaustive": True,
+        "exhaustive": False,
+        "exhaustive_parts": ["kinds x 38 operations x 4 origins x operands on real objects", "Environment/SandboxedEnvironment "
+                             "getitem/getattr x kinds x origins x 9 keys", "(environment type, mode, kind, access chain of length <= 1, "
+                             "final operation) through templates — routes and concrete key forms are sampled per case in the quick tier, "
+                             "every route in the thorough tier"],
         "documented_outcome_distribution": dist,
         "e2e": {k: v for k, v in e2e.items() if k not in ("samples",)},
+        "engine": {k: v for k, v in eng.items() if k not in ("samples",)},
+        "engine_samples": eng["samples"],
+        "api": api,
+        "hierarchy": hier,
     })
 
 
@@ -277,10 +347,395 @@ def run_e2e(ctx, res, jinja2, ks, table):
     return {"renders": renders, "distinct": len(distinct), "samples": samples}
 
 
+# ======================================================================================================================
+# the operation table THROUGH THE ENGINE (oracle: Lean `UndefinedEngine.runSpec`; transcription: `UndefinedEngine.run`)
+# ======================================================================================================================
+
+P = "@@"   # placeholder of the (parenthesised) value expression
+FINALS = {
+    "print": "[{{ @@ }}]", "ifElse": "{% if @@ %}T{% else %}F{% endif %}", "notOp": "{{ not @@ }}",
+    "andPrint": "[{{ @@ and 1 }}]", "forLoop": "[{% for i in @@ %}{{ i }}{% endfor %}]", "length": "{{ @@|length }}",
+    "count": "{{ @@|count }}", "list": "{{ @@|list }}", "string": "[{{ @@|string }}]", "concat": "[{{ @@ ~ 'a' }}]",
+    "escapeF": "[{{ @@|e }}]", "trim": "[{{ @@|trim }}]", "intF": "{{ @@|int }}", "floatF": "{{ @@|float }}",
+    "default": "{{ @@|default('d') }}", "defaultBool": "{{ @@|d('d', true) }}", "isDefined": "{{ @@ is defined }}",
+    "isUndefined": "{{ @@ is undefined }}", "isNone": "{{ @@ is none }}", "isIterable": "{{ @@ is iterable }}",
+    "inOp": "{{ 1 in @@ }}", "notInOp": "{{ 1 not in @@ }}", "eqOp": "{{ @@ == 1 }}", "neOp": "{{ @@ != 1 }}",
+    "eqSelf": "{{ @@ == @@ }}", "reqOp": "{{ 1 == @@ }}", "rneOp": "{{ 1 != @@ }}", "testEq": "{{ @@ is eq(1) }}",
+    "inList": "{{ @@ in [1] }}", "pos": "{{ +@@ }}", "neg": "{{ -@@ }}", "call": "{{ @@(1, k=2) }}",
+    "join": "[{{ @@|join(',') }}]", "hashKey": "{{ {@@: 1}|length }}", "sum": "{{ @@|sum }}", "sort": "{{ @@|sort }}",
+}
+BINSYM = {"add": "+", "sub": "-", "mul": "*", "truediv": "/", "floordiv": "//", "mod": "%", "pow": "**",
+          "lt": "<", "le": "<=", "gt": ">", "ge": ">="}
+for _o, _sym in BINSYM.items():
+    FINALS[f"bin:{_o}:l"] = "{{ @@ " + _sym + " 2 }}"
+    FINALS[f"bin:{_o}:r"] = "{{ 7 " + _sym + " @@ }}"
+
+
+def final_enc(f):
+    if f.startswith("bin:"):
+        _, o, side = f.split(":")
+        return [Atom("bin"), Atom(o), side == "r"]
+    return Atom(f)
+
+
+# how the undefined value comes into being: expression, and what its error message must name
+ROUTES = {
+    "name": ("missing_var", "missing_var"),
+    "attrObj": ("obj.nope", "nope"),
+    "attrDict": ("dct.nope", "nope"),
+    "itemIntList": ("seq[7041]", "7041"),
+    "itemIntDict": ("dct[7041]", "7041"),
+    "itemIntNum": ("num[7041]", "7041"),
+    "itemStrDict": ("dct['zk']", "zk"),
+    "itemTupleDict": ("dct[(8, 9)]", "(8, 9)"),
+    "itemVarKey": ("dct[vk]", "5150"),
+    # docs/templates.rst "If Expression": the implicit else "evaluates into an Undefined object (regardless of what
+    # undefined in the environment is set to)" (compiler.py: cond_expr_undefined = Undefined) -> kind default
+    "hintIf": ("(1 if false)", "inline if-expression"),
+    "filterFirst": ("([]|first)", "No first item"),
+    "filterLast": ("([]|last)", "No last item"),
+    "ctxHint": ("hv", "custom hint text"),
+    "ctxName": ("nv", "given_name"),
+}
+# concrete forms of each access step (applied to an expression text)
+ACC_FORMS = {
+    "attr": [lambda x: f"{x}.k", lambda x: f"{x}.foo", lambda x: f"{x}.items", lambda x: f"{x}.name"],
+    "itemStr": [lambda x: f"{x}['k']", lambda x: f'{x}["some key"]', lambda x: f"{x}[sk]",
+                lambda x: f"[{x}]|map(attribute='k')|first"],
+    "itemOther": [lambda x: f"{x}[0]", lambda x: f"{x}[-1]", lambda x: f"{x}[(1, 2)]", lambda x: f"{x}[none]",
+                  lambda x: f"{x}[ik]", lambda x: f"{x}[1.5]", lambda x: f"{x}[true]",
+                  lambda x: f"[{x}]|map(attribute='0')|first"],
+    "slice": [lambda x: f"{x}[1:2]", lambda x: f"{x}[:1]", lambda x: f"{x}[::2]", lambda x: f"{x}[ik:]"],
+    "attrFilter": [lambda x: f"{x}|attr('k')", lambda x: f"{x}|attr('foo')"],
+}
+ACCS = list(ACC_FORMS)
+
+
+class _O:
+    pass
+
+
+def engine_data(cls):
+    return {"obj": _O(), "dct": {}, "seq": [1, 2], "num": 42, "vk": 5150, "ik": 3, "sk": "k",
+            "hv": cls(hint="custom hint text"), "nv": cls(name="given_name")}
+
+
+def route_kind(route, kname):
+    """the kind of the undefined value the route produces in an environment whose undefined type is `kname`"""
+    return "default" if route == "hintIf" else kname
+
+
+def build_src(route, forms, final):
+    """route name, list of (acc, form index), final name -> template source"""
+    x = ROUTES[route][0]
+    for acc, fi in forms:
+        x = "(" + ACC_FORMS[acc][fi](x) + ")"
+    return FINALS[final].replace(P, "(" + x + ")")
+
+
+class Engines:
+    """one environment per (environment type, sync/async, kind); one event loop for the async renders"""
+
+    def __init__(self, jinja2, ks):
+        from jinja2.sandbox import SandboxedEnvironment
+        self.jinja2 = jinja2
+        self.ks = ks
+        self.envs = {}
+        for et, E in (("plain", jinja2.Environment), ("sandbox", SandboxedEnvironment)):
+            for is_async in (False, True):
+                for kname, (_kenc, cls, _h) in ks.items():
+                    self.envs[(et, is_async, kname)] = E(undefined=cls, enable_async=is_async, cache_size=0)
+        self.loop = asyncio.new_event_loop()
+        self._code_key = self._code = None
+
+    def close(self):
+        self.loop.close()
+
+    def code(self, et, is_async, src):
+        """the module code of `src` for this environment type and mode (the generated code does not depend on the
+        environment's undefined type; `shared` renders load it with Template.from_code instead of compiling again)"""
+        k = (et, is_async, src)
+        if self._code_key != k:
+            try:
+                self._code = self.envs[(et, is_async, "default")].compile(src)
+            except Exception:  # noqa
+                self._code = None
+            self._code_key = k
+        return self._code
+
+    def render(self, et, is_async, kname, src, shared=False):
+        """-> ("raises", message) | ("text", output) | ("other", class name, message)"""
+        env = self.envs[(et, is_async, kname)]
+        cls = self.ks[kname][1]
+        h = self.ks[kname][2]
+        if h:
+            h.records.clear()
+        try:
+            code = self.code(et, is_async, src) if shared else None
+            if code is not None:
+                t = self.jinja2.Template.from_code(env, code, env.make_globals(None), None)
+            else:
+                t = env.from_string(src)
+            data = engine_data(cls)
+            out = self.loop.run_until_complete(t.render_async(**data)) if is_async else t.render(**data)
+            return ("text", out)
+        except self.jinja2.exceptions.UndefinedError as e:
+            return ("raises", str(e))
+        except Exception as e:  # noqa
+            return ("other", type(e).__name__, str(e)[:120])
+
+
+def dec_fout(r):
+    """Lean FOut -> ("raises", named) | ("text", pieces, named) | ("oom",)"""
+    tag = str(r[0])
+    if tag == "raises":
+        return ("raises", bool(r[1]))
+    if tag == "text":
+        return ("text", tuple("\0dbg" if isinstance(x, Atom) else x for x in r[1]), bool(r[2]))
+    return ("oom",)
+
+
+def conforms(expect, got, needle):
+    """does the observed render conform to a Lean outcome?  -> (ok, reason)"""
+    if expect[0] == "raises":
+        if got[0] != "raises":
+            return False, "no UndefinedError"
+        if expect[1] and needle not in got[1]:
+            return False, f"the error message does not name {needle!r}"
+        if not expect[1] and needle in got[1]:
+            return False, "the message names the origin although a new undefined is blamed"
+        return True, ""
+    if expect[0] == "text":
+        if got[0] != "text":
+            return False, "raised" if got[0] == "raises" else f"raised {got[1]}"
+        out, pieces = got[1], list(expect[1])
+        if "\0dbg" not in pieces:
+            return (out == "".join(pieces)), "different output"
+        i = pieces.index("\0dbg")
+        pre, post = "".join(pieces[:i]), "".join(pieces[i + 1:])
+        if not (out.startswith(pre) and out.endswith(post) and len(out) >= len(pre) + len(post)):
+            return False, "different output"
+        mid = out[len(pre):len(out) - len(post)]
+        if not (mid.startswith("{{") and mid.endswith("}}")):
+            return False, "not a debug placeholder"
+        if expect[2] and needle not in mid:
+            return False, f"the debug placeholder does not name {needle!r}"
+        return True, ""
+    return True, "oom"
+
+
+def engine_cases(ctx, broken):
+    """yield (env type, is_async, route, forms, final): every (env, mode, chain of length <= 1, final) with the route and
+    the concrete forms drawn per case (quick) / for every route (thorough), then random longer chains (three times as
+    many when a proof or the tie broke)"""
+    finals = list(FINALS)
+    routes = list(ROUTES)
+    rng = ctx.rng("engine")
+    every_route = not ctx.quick
+    n = 0
+    for et in ("plain", "sandbox"):
+        for is_async in (False, True):
+            for chain in [[]] + [[a] for a in ACCS]:
+                for final in finals:
+                    rs = routes if every_route else [routes[(n + rng.randrange(len(routes))) % len(routes)]]
+                    for route in rs:
+                        forms = [(a, rng.randrange(len(ACC_FORMS[a]))) for a in chain]
+                        n += 1
+                        yield et, is_async, route, forms, final
+    # every concrete form of every access step at least once per environment type
+    for et in ("plain", "sandbox"):
+        for a in ACCS:
+            for fi in range(len(ACC_FORMS[a])):
+                yield et, rng.random() < 0.5, rng.choice(routes), [(a, fi)], rng.choice(["print", "isDefined", "ifElse", "length"])
+    for _ in range(ctx.pick(400, 8000) * (3 if broken else 1)):
+        chain = [rng.choice(ACCS) for _ in range(rng.randrange(2, 5))]
+        forms = [(a, rng.randrange(len(ACC_FORMS[a]))) for a in chain]
+        yield rng.choice(("plain", "sandbox")), rng.random() < 0.5, rng.choice(routes), forms, rng.choice(finals)
+
+
+def run_engine(ctx, res, jinja2, ks):
+    broken = bool(ctx.gen_changed or ctx.tie_broken or ctx.proof_broken)
+    cases = list(engine_cases(ctx, broken))
+    # 1. the Lean side: one request per distinct abstract case
+    keys, reqs = {}, []
+    for et, is_async, route, forms, final in cases:
+        chain = tuple(a for a, _ in forms)
+        for kname in ks:
+            kname = route_kind(route, kname)
+            k = (et, is_async, kname, chain, final)
+            if k not in keys:
+                keys[k] = len(reqs)
+                reqs.append([Atom("undef-engine"), Atom(et), is_async, ks[kname][0], [Atom(a) for a in chain], final_enc(final)])
+    replies = core.driver_batch(reqs)
+    lean = {}
+    for k, i in keys.items():
+        r = replies[i]
+        if str(r[0]) != "ok":
+            raise core.HarnessError(f"undef-engine {k}: {r}")
+        lean[k] = (dec_fout(r[1][0]), dec_fout(r[1][1]))
+    # 2. the real engine
+    eng = Engines(jinja2, ks)
+    share_rng, knames = ctx.rng("engine-share"), list(ks)
+    renders, distinct, seen_keys, samples = 0, set(), {}, []
+    dist = {"raises": 0, "text": 0, "oom": 0, "by_route": {}, "by_chain_len": {}, "by_env": {}, "model_ne_spec": 0}
+    try:
+        for et, is_async, route, forms, final in cases:
+            chain = tuple(a for a, _ in forms)
+            src = build_src(route, forms, final)
+            needle = ROUTES[route][1]
+            dist["by_route"][route] = dist["by_route"].get(route, 0) + 1
+            dist["by_chain_len"][len(chain)] = dist["by_chain_len"].get(len(chain), 0) + 1
+            dist["by_env"][f"{et}/{'async' if is_async else 'sync'}"] = dist["by_env"].get(f"{et}/{'async' if is_async else 'sync'}", 0) + 1
+            own = share_rng.choice(knames)      # quick: one kind compiles the source itself, the others load the same code
+            for kname in ks:
+                model, spec = lean[(et, is_async, route_kind(route, kname), chain, final)]
+                got = eng.render(et, is_async, kname, src, shared=ctx.quick and not broken and kname != own)
+                renders += 1
+                distinct.add((et, is_async, kname, src))
+                dist[spec[0]] += 1
+                if model != spec:
+                    dist["model_ne_spec"] += 1
+                if len(samples) < 4 and renders % 997 == 1:
+                    samples.append({"src": src, "kind": kname, "env": et, "async": is_async, "documented": list(spec), "observed": list(got)})
+                if spec[0] == "oom":
+                    continue
+                ok, why = conforms(spec, got, needle)
+                sig = "+".join(chain) or "-"
+                case = {"engine": {"src": src, "kind": kname, "env": et, "async": is_async, "route": route, "chain": list(chain),
+                                   "final": final, "needle": needle, "documented": list(spec), "model": list(model), "observed": list(got)}}
+                if not ok:
+                    key = f"C21:engine:{kname}:{sig}:{final}" if "name" not in why else f"C21:engine:message:{kname}:{sig}"
+                    seen_keys[key] = seen_keys.get(key, 0) + 1
+                    if seen_keys[key] == 1 and len(seen_keys) <= 24:
+                        res.violate(key, f"{et} {'async' if is_async else 'sync'} template {src!r} with undefined={kname} "
+                                         f"(value from route {route}): {why}; observed {got!r}, documented {spec!r}"
+                                         + (f", source model {model!r}" if model != spec else ""), case)
+                elif model != spec and model[0] != "oom":
+                    mok, _ = conforms(model, got, needle)
+                    if not mok:
+                        res.violate("C21:engine:model-drift", f"engine model {model!r} differs from the implementation {got!r} "
+                                    f"on {src!r} ({kname}, {et}); the documented outcome {spec!r} holds",
+                                    dict(case, correspondence="UndefinedEngine.run vs render"), no_input=True)
+    finally:
+        eng.close()
+    if seen_keys:
+        res.notes.append(f"engine: {sum(seen_keys.values())} failing renders under {len(seen_keys)} keys")
+    return {"renders": renders, "distinct": len(distinct), "samples": samples, "dist": dist,
+            "failing_renders": sum(seen_keys.values()), "failing_keys": len(seen_keys), "abstract_cases": len(keys)}
+
+
+# keys handed to Environment.getitem directly (public API); True = the str path
+API_KEYS = [("k", True), ("some key", True), (0, False), (-1, False), ((1, 2), False), (None, False), (1.5, False),
+            (True, False), (slice(1, 2), False)]
+
+
+def run_api(ctx, res, jinja2, ks):
+    """Environment.getitem / getattr (plain and sandboxed) called directly on undefined values of every kind and origin"""
+    from jinja2.sandbox import SandboxedEnvironment
+    reqs, meta = [], []
+    for et in ("plain", "sandbox"):
+        for kname, (kenc, _c, _h) in ks.items():
+            for acc in ("attr", "itemStr", "itemOther"):
+                reqs.append([Atom("undef-step"), Atom(et), kenc, Atom(acc)])
+                meta.append((et, kname, acc))
+    steps = {m: (str(r[1][0]), str(r[1][1])) for m, r in zip(meta, core.driver_batch(reqs))}
+    n, distinct = 0, set()
+    for et, E in (("plain", jinja2.Environment), ("sandbox", SandboxedEnvironment)):
+        for kname, (_kenc, cls, handler) in ks.items():
+            env = E(undefined=cls)
+            for oname, kw in ORIGINS.items():
+                calls = [("attr", "getattr", "k")] + [("itemStr" if is_str else "itemOther", "getitem", key) for key, is_str in API_KEYS]
+                for acc, meth, key in calls:
+                    model, spec = steps[(et, kname, acc)]
+                    u = cls(**kw)
+                    try:
+                        r = getattr(env, meth)(u, key)
+                        got = "same" if r is u else ("fresh" if isinstance(r, jinja2.Undefined) else f"other:{r!r}")
+                        msg = None
+                    except jinja2.exceptions.UndefinedError as e:
+                        got, msg = "raise", str(e)
+                    except Exception as e:  # noqa
+                        got, msg = f"other:{type(e).__name__}", None
+                    n += 1
+                    distinct.add((et, kname, oname, meth, repr(key)))
+                    case = {"api": {"env": et, "kind": kname, "origin": oname, "method": meth, "key": repr(key)}}
+                    if got != spec:
+                        res.violate(f"C21:api:{kname}:{meth}:{acc}", f"{E.__name__}(undefined={kname}).{meth}(<undefined from {oname}>, {key!r}) "
+                                    f"gives {got!r}, documented {spec!r}" + (f" (source model {model!r})" if model != spec else ""), case)
+                    elif msg is not None and NEEDLE[oname] not in msg:
+                        res.violate(f"C21:api:message:{oname}", f"{E.__name__}.{meth}(<{kname} undefined from {oname}>, {key!r}): message {msg!r} "
+                                    f"does not name {NEEDLE[oname]!r}", case)
+                    elif got != model:
+                        res.violate("C21:api:model-drift", f"step model {model!r} differs from {got!r} ({et} {kname} {meth} {key!r})", case, no_input=True)
+    return {"calls": n, "distinct": len(distinct)}
+
+
+def run_hierarchy(ctx, res, jinja2):
+    """the class tables READ from exceptions.py against the real classes, and the documented ancestors (Lean) as oracle"""
+    import builtins
+    import inspect
+    exc = jinja2.exceptions
+    real = {n: c for n, c in vars(exc).items() if inspect.isclass(c) and c.__module__ == exc.__name__}
+    tables = core.driver_batch([[Atom("exc-tables")]])[0][1]
+    gen_classes, gen_builtins, caught, undef_exc = list(tables[0]), list(tables[1]), list(tables[2]), tables[3]
+    n = 0
+    if sorted(gen_classes) != sorted(real):
+        res.violate("C21:hierarchy:classes", f"classes read from exceptions.py {sorted(gen_classes)} differ from the module's {sorted(real)}",
+                    {"correspondence": "Gen.ExceptionClasses.classes vs jinja2.exceptions"}, no_input=True)
+    names = [c for c in gen_classes if c in real] + [b for b in gen_builtins if hasattr(builtins, b)]
+    anc = core.driver_batch([[Atom("exc-ancestors"), c] for c in names])
+    doc = core.driver_batch([[Atom("exc-documented"), c] for c in names])
+    for c, a, d in zip(names, anc, doc):
+        cls = real.get(c) or getattr(builtins, c)
+        mro = sorted({k.__name__ for k in cls.__mro__})
+        n += 1
+        if sorted(a[1]) != mro:
+            res.violate("C21:hierarchy:model-drift", f"ancestors of {c} from the tables {sorted(a[1])} differ from the real __mro__ {mro}",
+                        {"class": c, "correspondence": "UndefinedEngine.ancestors vs __mro__"}, no_input=True)
+        if c in real and not isinstance(d[1], Atom) and sorted(d[1]) != mro:
+            extra, missing = sorted(set(mro) - set(d[1])), sorted(set(d[1]) - set(mro))
+            res.violate(f"C21:hierarchy:{c}", f"jinja2.exceptions.{c} is an instance of {mro}; documented {sorted(d[1])}"
+                        + (f" (gained {extra})" if extra else "") + (f" (lost {missing})" if missing else ""),
+                        {"hierarchy": {"class": c, "mro": mro, "documented": sorted(d[1])}})
+    # what an undefined value raises must escape every builtin handler class other than Exception / BaseException
+    ue = real.get(undef_exc)
+    if ue is not None:
+        for bn in sorted(n_ for n_ in dir(builtins) if inspect.isclass(getattr(builtins, n_)) and issubclass(getattr(builtins, n_), BaseException)):
+            b = getattr(builtins, bn)
+            n += 1
+            if b not in (Exception, BaseException) and issubclass(ue, b):
+                res.violate(f"C21:hierarchy:{undef_exc}:{b.__name__}", f"{undef_exc} is a subclass of the builtin {b.__name__}: every `except {b.__name__}` "
+                            "guarding an operation on a template value now swallows the error of an undefined value",
+                            {"hierarchy": {"class": undef_exc, "builtin": b.__name__}})
+    return {"checks": n, "classes": len(gen_classes), "caught_builtins": len(caught)}
+
+
 def replay(ctx, case):
     jinja2 = core.import_jinja()
     c = case["case"]
     ks = kinds(jinja2)
     if "op" in c and "origin" in c:
         return {"impl": perform(ks[c["kind"]][1], ORIGINS[c["origin"]], c["op"], eval(c.get("other", "None")))}
+    if "engine" in c:
+        e = c["engine"]
+        eng = Engines(jinja2, ks)
+        try:
+            got = eng.render(e["env"], e["async"], e["kind"], e["src"])
+        finally:
+            eng.close()
+        return {"src": e["src"], "kind": e["kind"], "env": e["env"], "async": e["async"], "impl": list(got), "documented": e["documented"]}
+    if "api" in c:
+        from jinja2.sandbox import SandboxedEnvironment
+        a = c["api"]
+        cls = ks[a["kind"]][1]
+        env = (SandboxedEnvironment if a["env"] == "sandbox" else jinja2.Environment)(undefined=cls)
+        u = cls(**ORIGINS[a["origin"]])
+        try:
+            r = getattr(env, a["method"])(u, eval(a["key"]))
+            return {"impl": "same" if r is u else repr(r)}
+        except Exception as e:  # noqa
+            return {"impl": f"raised {type(e).__name__}: {e}"}
+    if "hierarchy" in c:
+        h = c["hierarchy"]
+        return {"class": h["class"], "mro": [k.__name__ for k in getattr(jinja2.exceptions, h["class"]).__mro__]}
     return c
